@@ -147,17 +147,19 @@ def main():
       '   different: another mechanism, code site or trigger): rounds 1 and 2 for all 20 properties, round 3 for the 14\n'
       '   behavioural properties of the priority / join / limit disciplines, round 4 for the rest (C04 C10 C13 C14 C18\n'
       '   C20), round 5 for the 12 properties with the most misses so far, round 6 for the other 8, round 7 for 17 properties\n'
-      '   (all but C04, C13, C18), round 8 for 13 (for round 8 the harness was frozen until the changes had been run):\n'
+      '   (all but C04, C13, C18), round 8 for 13 and round 9 for 15 (from round 8 on the harness was frozen until the changes had been run;\n'
+      '   the C01 agent of round 9 found no change that breaks the capacity bound and still passes the existing suite):\n'
       '   %d changes. **Caught by the owning check at the first try: round 1: 32 of 40; round\n'
       '   2: 28 of 40; round 3: 19 of 28; round 4: 10 of 12; round 5: 17 of 24; round 6: 13 of 16; round 7: 24 of 35\n'
       '   (four of the eleven misses were closed on reading the agents\' reports, before the changes were run); round\n'
-      '   8: 20 of 26.** Each miss showed a real weakness - a workload that was too\n'
+      '   8: 20 of 26; round 9: 22 of 28.** Each miss showed a real weakness - a workload that was too\n'
       '   narrow (unusual configurations above all), an oracle that was sound but too weak, an observation taken too\n'
       '   late, or instrumentation that synchronised what it was supposed to watch - and was closed by strengthening\n'
       '   the monitor, never by special-casing the change. After that all are caught by the owning check, except\n'
       '   C05-10 and C05-11, whose effects exist only while the configured set is being changed by AddInput /\n'
-      '   RemoveInput - C05 speaks about a configured set, and no sound transitional bound exists (see their\n'
-      '   `meta.json`; C05-10 is caught by C01 / C06):\n' % len(glob.glob(os.path.join(V, 'seeded', '*', ''))))
+      '   RemoveInput - C05 speaks about a configured set, and no sound transitional bound exists (C05-10 is caught by\n'
+      '   C01 / C06) - and C02-13 / C02-14, which delay or block delivery without ever losing or duplicating an item\n'
+      '   in a configuration where delivery is promised (caught by C06; see their `meta.json`):\n' % len(glob.glob(os.path.join(V, 'seeded', '*', ''))))
     w('   | change | what it does / what it needs | caught by | first try |')
     w('   |---|---|---|---|')
     for d in sorted(glob.glob(os.path.join(V, 'seeded', '*', ''))):
@@ -210,7 +212,11 @@ def main():
       '   the pure helpers called concurrently with shared arguments. Round 8: C02-11 -> an input channel with a second\n'
       '   consumer; C07-11 -> an input that is a nil channel; C08-11 -> no-copy stops at arbitrary points and the\n'
       '   check that every v1 slice is a run of consecutive input elements; C15-13 -> faults that give a handler to a\n'
-      '   configured priority outside the list. `meta.json` of each change records what was run and seen.\n')
+      '   configured priority outside the list. Round 9: C07-14 -> GracefulStop() in the same scheduler pass as the\n'
+      '   AddInput before it, with a divider that takes its time; C12-12 -> a reference model of the portion pacing\n'
+      '   that holds for any consumer; C16-13 -> Stop() after a divider fault whose error nobody read; C17-14 ->\n'
+      '   re-adding a removed priority with its original channel object. `meta.json` of each change records what was\n'
+      '   run and seen.\n')
     if seeded:
         def listed(n, c):
             try:
